@@ -67,6 +67,9 @@ pub fn generate(seed: u64) -> Case {
         }
     }
     if both.is_empty() {
+        // (a name lives in exactly one of the three sets)
+        only_l.retain(|n| n != "INT");
+        only_y.retain(|n| n != "INT");
         both.push("INT".into());
     }
     let mut blank = |r: &mut Rng, s: &mut String| {
